@@ -59,7 +59,12 @@ RULE = ("E4: outline template with the 6 placeholder positions {name, step name,
         "edit, add_row(block), add_column(block)} x every fault site {bad annotation-schema field = first rendered "
         "row; non-text cell brought in by add_column at (block,row)}: the read must raise, the cause is repaired "
         "outside the table API, then .scenarios (read twice) must equal the expansion of a freshly parsed outline "
-        "over the same tables. An outline is "
+        "over the same tables; all of this x annotation schema {default, '{name} :: {examples.name} #{row.index}', "
+        "'{name}'} x a reset (outline.reset / feature.reset / reset_model([feature])) at each position {none, after "
+        "the prior read, after the failed build, after the repair}. The reset operations are also operations of the "
+        "table-API history search (default schema: as variant operations; the two non-default schemas: base "
+        "alphabet + resets to depth 3 quick / 4 thorough); after a reset no generated scenario/step carries a "
+        "status, and every read must give the expansion under the CURRENT schema. An outline is "
         "non-trivial (counted distinct by its case) when it has >=1 row and >=1 placeholder position switched on; a "
         "history is non-trivial when it contains an edit after a read/run (the cache had to be invalidated).")
 ASSUMPTIONS = [
@@ -267,6 +272,7 @@ def ref_expand(tmpl, blocks, schema):
             rowsp.update(row)
             name = subst(tmpl["name"], rowsp)
             full = (schema.replace(u"{name}", u"\0").replace(u"{row.id}", u"%d.%d" % (bi + 1, ri + 1))
+                    .replace(u"{row.index}", u"%d" % (ri + 1)).replace(u"{examples.index}", u"%d" % (bi + 1))
                     .replace(u"{examples.name}", u"\1").replace(u"\0", name).replace(u"\1", ex_name))
             tags = []
             for t in tmpl["tags"]:
@@ -857,9 +863,19 @@ ADD_ROW_KINDS = ("list", "tuple", "row")
 BASE_ADD_COL = (("none", 0), ("list_short", 1))
 
 
-def is_variant(op):
-    """operations outside the base alphabet; a history may hold only a bounded number of them (deviation bound)"""
+# annotation schemas of the history searches: default, one using {examples.name}/{row.index}, one without any row
+# placeholder (all rows of an outline then share one name)
+H_SCHEMAS = (None, u"{name} :: {examples.name} #{row.index}", u"{name}")
+RESET_KINDS = ("outline", "feature", "model")
+
+
+def is_variant(op, reset_is_base=False):
+    """operations outside the base alphabet; a history may hold only a bounded number of them (deviation bound).
+    The reset operations are variants in the default-schema search and base operations in the (shallower)
+    non-default-schema searches, which in turn exclude the other variants"""
     k = op[0]
+    if k == "reset":
+        return not reset_is_base
     if k == "add_row":
         return op[3] != "list"
     if k == "add_col":
@@ -870,7 +886,7 @@ def is_variant(op):
 
 
 def applicable_ops(model):
-    ops = [("read",), ("run",)]
+    ops = [("read",), ("run",)] + [("reset", kind) for kind in RESET_KINDS]
     for bi, b in enumerate(model):
         for pat in range(len(ROW_PATTERNS)):
             for kind in ADD_ROW_KINDS:
@@ -916,7 +932,7 @@ def add_col_values(kind, nrows):
 def model_apply(model, op):
     """reference model of the examples tables (documented Table API): list of dict(name, tags, headings, rows)"""
     k = op[0]
-    if k in ("read", "run"):
+    if k in ("read", "run", "reset"):
         return
     if k == "add_row":
         b = model[op[1]]
@@ -953,6 +969,15 @@ def real_apply(feature, outline, model_before, op):
         return list(outline.scenarios)
     if k == "run":
         return run_feature(feature)
+    if k == "reset":
+        if op[1] == "outline":
+            outline.reset()
+        elif op[1] == "feature":
+            feature.reset()
+        else:
+            from behave.model import reset_model
+            reset_model([feature])
+        return
     if k == "add_row":
         t = outline.examples[op[1]].table
         cells = [ROW_PATTERNS[op[2]][h] for h in model_before[op[1]]["headings"]]
@@ -1002,15 +1027,19 @@ def _op_class(op):
         return "remove_column(int)"
     if op[0] == "rm_col":
         return "remove_column(name)"
+    if op[0] == "reset":
+        return "reset"          # outline.reset / feature.reset / reset_model: one operation class
     return op[0]
 
 
 def check_history(case):
-    """case = (start_id, ops); replays the history on a freshly parsed outline, then judges the final state"""
-    start, ops = case
+    """case = (start_id, ops[, schema_id]); replays the history on a freshly parsed outline, then judges the final
+    state under the CURRENT annotation schema"""
+    start, ops = case[:2]
+    schema = H_SCHEMAS[case[2]] if len(case) > 2 else None
     tmpl = template(FULL, cols="abc")
     model = [block_model(b, i) for i, b in enumerate(STARTS[start])]
-    _reset_globals(None)
+    _reset_globals(schema)
     v = []
     base = {"subcheck": "history"}
     try:
@@ -1038,6 +1067,15 @@ def check_history(case):
                       "history %r: %r raised %s: %s" % (ops, op, type(e).__name__, e)))
             return {"v": v, "dg": ("exc", type(e).__name__), "out": "exc", "keep": (case, None, ())}
         canon = canonical(outline)            # before the judging read below (which is not part of the history)
+        if ops and ops[-1][0] == "reset":
+            # after a reset nothing that was generated before carries a run status any more
+            stale = [(u"%s" % sc.name, sc.status.name) for sc in outline._scenarios if sc.status.name != "untested"]
+            stale += [(u"%s" % st_.name, st_.status.name) for sc in outline._scenarios for st_ in sc.all_steps
+                      if st_.status.name != "untested"]
+            if stale:
+                v.append((dict(base, clause="status-after-reset", op=_op_class(ops[-1])),
+                          "history %r: after the reset these generated scenarios/steps still carry a status: %r"
+                          % (ops, stale[:4])))
         # tables as the API left them vs the reference table model
         real_tables = [(list(e.table.headings), [list(r.cells) for r in e.table.rows]) for e in outline.examples]
         want_tables = [(b["headings"], b["rows"]) for b in model]
@@ -1062,7 +1100,7 @@ def check_history(case):
             if row_lines[bi][:len(rl)] != rl:
                 v.append((dict(base, clause="parsed-row-lines"), "rows of block %d at %r, rendered at %r"
                           % (bi + 1, row_lines[bi], rl)))
-        want = ref_expand(tmpl, model, None)
+        want = ref_expand(tmpl, model, schema)
         try:
             scenarios = list(outline.scenarios)
         except Exception as e:
@@ -1071,6 +1109,8 @@ def check_history(case):
             return {"v": v, "dg": ("exc", type(e).__name__), "out": "exc", "keep": (case, canon, ())}
         edits = [_op_class(op) for op in ops if op[0] not in ("read", "run")]
         hist_base = dict(base, last_edit=edits[-1] if edits else "none")
+        if schema is not None:
+            hist_base["schema"] = "non-default"
         v_exp = compare_expansion(scenarios, want, row_lines, outline, base, "history %r" % (ops,))
         if v_exp:
             # is this the expansion itself (a freshly built outline over the same tables is wrong in the same way)
@@ -1125,20 +1165,47 @@ def failed_build_cases(max_rows):
                         yield (shape, prior_read, pre, ("cell", k, r))
 
 
+RESET_POSITIONS = (None, "after-prior-read", "after-failed-build", "after-repair")
+
+
+def failed_build_cases_with_resets(max_rows):
+    """... x annotation schema {default, 2 non-default} x a reset (outline / feature / reset_model) at every position"""
+    for base in failed_build_cases(max_rows):
+        for sid in range(len(H_SCHEMAS)):
+            for pi, pos in enumerate(RESET_POSITIONS):
+                if pos == "after-prior-read" and not base[1]:
+                    continue
+                yield base + (sid, pos, RESET_KINDS[(pi + sid) % 3])
+
+
 def check_failed_build(case):
-    shape, prior_read, pre, fault = case
+    shape, prior_read, pre, fault = case[:4]
+    sid, reset_pos, reset_kind = case[4:] if len(case) > 4 else (0, None, None)
+    cur_schema = H_SCHEMAS[sid]
+
+    reset_exc = []
+
+    def maybe_reset(pos, feature, outline):
+        if pos == reset_pos:
+            try:
+                real_apply(feature, outline, None, ("reset", reset_kind))
+            except Exception as e:          # a reset clears run information; it is not a build and must not fail
+                reset_exc.append("%s: %s" % (type(e).__name__, e))
     tmpl = template(FULL, cols="abc")
     model = [{"name": [u"E-<a>", u"Two"][bi], "tags": [[u"e1"], []][bi], "headings": [[u"a", u"b"], [u"b", u"a"]][bi],
               "rows": [list(FB_ROWS[ri]) for ri in range(n)]} for bi, n in enumerate(shape)]
     phase = "rebuild" if prior_read else "first-build"
     base = {"subcheck": "failed-build", "phase": phase}
-    what = "outline %r, %s%s, fault %r" % (shape, phase, " after %s(block %d)" % pre if pre else "", fault)
+    what = "outline %r, %s%s, fault %r%s%s" % (shape, phase, " after %s(block %d)" % pre if pre else "", fault,
+                                                ", schema #%d" % sid if sid else "",
+                                                ", reset(%s) %s" % (reset_kind, reset_pos) if reset_pos else "")
     v = []
-    _reset_globals(None)
+    _reset_globals(cur_schema)
     try:
         feature, outline, lines, text = parse_outline(tmpl, model)
         if prior_read:
             list(outline.scenarios)
+            maybe_reset("after-prior-read", feature, outline)
         if pre is not None:
             t = outline.examples[pre[1]].table
             if pre[0] == "add_row":
@@ -1165,11 +1232,13 @@ def check_failed_build(case):
             list(outline.scenarios)
         except Exception as e:
             raised = type(e).__name__
+        maybe_reset("after-failed-build", feature, outline)
         # ---- repair the cause OUTSIDE the table API (no new modified flag)
         if fault[0] == "schema":
-            outline.annotation_schema = DEFAULT_SCHEMA
+            outline.annotation_schema = cur_schema or DEFAULT_SCHEMA
         else:
             outline.examples[fault[1]].table.rows[fault[2]].cells[-1] = u"fixed"
+        maybe_reset("after-repair", feature, outline)
         # ---- the oracle: a freshly parsed outline over the same (repaired) tables
         ffeature, fresh, flines, ftext = parse_outline(tmpl, model)
         want = [(g["name"], g["tags"], g["steps"]) for g in map(snap_scenario, fresh.scenarios)]
@@ -1181,6 +1250,9 @@ def check_failed_build(case):
                       "%s: build raised %s, cause repaired, reading .scenarios raised %s: %s"
                       % (what, raised, type(e).__name__, e)))
             return {"v": v, "dg": ("exc", raised, type(e).__name__), "out": ("fb", "exc"), "n": 3}
+        if reset_exc:
+            v.append((dict(base, clause="reset-raises", position=reset_pos),
+                      "%s: the reset raised %s" % (what, reset_exc[0])))
         if raised is not None and got != want:
             k = len(got)
             for i, (g, w) in enumerate(zip(got, want)):
@@ -1204,17 +1276,18 @@ def check_failed_build(case):
             "st": {"transitions": 2 + bool(prior_read) + bool(pre), "traces": 1}}
 
 
-def allowed(history_ops, bounds):
+def allowed(history_ops, bounds, reset_is_base=False):
     """deviation bound of the history search: bounds = {number of variant operations: maximal history length}"""
-    nvar = sum(1 for op in history_ops if is_variant(op))
+    nvar = sum(1 for op in history_ops if is_variant(op, reset_is_base))
     return nvar in bounds and len(history_ops) <= bounds[nvar], nvar
 
 
-def bfs(ctx, bounds, dedup, label):
+def bfs(ctx, bounds, dedup, label, schema_id=0):
     """one sweep per depth level; a state is (canonical digest, number of variant operations used so far) - the
     second component is the remaining deviation budget, which also determines the futures explored"""
     depth = max(bounds.values())
-    frontier = [(s, ()) for s in range(len(STARTS))]
+    rb = schema_id != 0
+    frontier = [(s, (), schema_id) for s in range(len(STARTS))]
     seen = {}
     per_depth = []
     for d in range(depth + 1):
@@ -1225,7 +1298,7 @@ def bfs(ctx, bounds, dedup, label):
         for case, canon, ops in kept:
             if canon is None:
                 continue
-            key = (canon, allowed(case[1], bounds)[1])
+            key = (canon, allowed(case[1], bounds, rb)[1])
             if key in seen:
                 if dedup:
                     continue
@@ -1234,8 +1307,8 @@ def bfs(ctx, bounds, dedup, label):
                 new += 1
             for op in ops:
                 h = case[1] + (op,)
-                if allowed(h, bounds)[0]:
-                    nxt.append((case[0], h))
+                if allowed(h, bounds, rb)[0]:
+                    nxt.append((case[0], h, schema_id))
         per_depth.append({"depth": d, "histories": len(frontier), "new_states": new})
         frontier = nxt
     return seen, per_depth
@@ -1256,18 +1329,26 @@ def run(ctx):
                   "deviations": [p[0] for p in plan],
                   "history_depth_by_number_of_variant_operations": {str(k): v for k, v in bounds.items()},
                   "history_depth_without_dedup": nd_bounds and {str(k): v for k, v in nd_bounds.items()},
+                  "history_depth_non_default_schemas": 3 if ctx.quick else 4,
                   "start_outlines": len(STARTS)}
     for name, cases in plan:
         ctx.sweep(check_outline, cases, chunk=64, name=name)
     n_outlines = len(ctx.nt)
-    fb_cases = list(failed_build_cases(2 if ctx.quick else 3))
+    fb_cases = list(failed_build_cases_with_resets(2 if ctx.quick else 3))
     ctx.sweep(check_failed_build, fb_cases, chunk=16, name="failed-build histories")
     n_fb = len(ctx.nt) - n_outlines
     ctx.guard(n_fb >= 0.9 * len(fb_cases), "the injected faults make the (re)build raise (%d of %d)"
               % (n_fb, len(fb_cases)))
     n_outlines = len(ctx.nt)
     seen, per_depth = bfs(ctx, bounds, True, "histories")
-    ctx.st.update({"states": len(seen)})
+    nstates = len(seen)
+    # the same search under the two non-default annotation schemas: base alphabet + the three reset operations
+    sdepth = 3 if ctx.quick else 4
+    for sid in (1, 2):
+        seen_s, per_s = bfs(ctx, {0: sdepth}, True, "histories, schema %d" % sid, sid)
+        nstates += len(seen_s)
+        ctx.note("bfs_levels_schema_%d" % sid, per_s)
+    ctx.st.update({"states": nstates})
     ctx.note("bfs_levels", per_depth)
     ctx.note("max_depth", max(bounds.values()))
     ctx.note("frontier_exhausted", False)
